@@ -59,26 +59,36 @@ def confirm(seed: pathlib.Path) -> int:
         sh(["git", "-C", REPO, "worktree", "remove", "--force", wt])
 
 
-def check(seed: pathlib.Path, tier: str, checks, vseed: int, budget) -> int:
-    meta = json.loads((seed / "meta.json").read_text())
+def check(seed: pathlib.Path, tier: str, checks, vseed: int, budget, inplace: bool) -> int:
+    meta_path = seed / "meta.json"
+    meta = json.loads(meta_path.read_text()) if meta_path.exists() else {}
     if not checks:
         checks = [meta["property"]]
-    status = sh(["git", "-C", REPO, "status", "--porcelain", "--untracked-files=no"], capture_output=True, text=True).stdout.strip()
-    if status:
-        print("refusing: /repo has uncommitted changes:\n" + status)
-        return 2
-    applied = sh(["git", "-C", REPO, "apply", str(seed / "patch.diff")])
-    if applied.returncode != 0:
-        print("PATCH DOES NOT APPLY to /repo")
-        return 2
+    if inplace:
+        status = sh(["git", "-C", REPO, "status", "--porcelain", "--untracked-files=no"], capture_output=True, text=True).stdout.strip()
+        if status:
+            print("refusing: /repo has uncommitted changes:\n" + status)
+            return 2
+        target = REPO
+    else:
+        target = tempfile.mkdtemp(prefix="seedrun-", dir="/tmp")
+        os.rmdir(target)
+        sh(["git", "-C", REPO, "worktree", "add", "-q", target, "HEAD"], check=True)
     results = {}
     try:
+        applied = sh(["git", "-C", target, "apply", str(seed / "patch.diff")])
+        if applied.returncode != 0:
+            print("PATCH DOES NOT APPLY")
+            return 2
         for pid in checks:
             t0 = time.time()
             cmd = ["/venv/bin/python", "-m", "vf.run", pid, "--tier", tier, "--seed", str(vseed)]
             if budget:
                 cmd += ["--budget", str(budget)]
-            proc = sh(cmd, cwd=str(VERIF), capture_output=True, text=True, timeout=7200)
+            environ = dict(os.environ)
+            if not inplace:
+                environ["VERIF_REPO"] = target
+            proc = sh(cmd, cwd=str(VERIF), capture_output=True, text=True, timeout=7200, env=environ)
             mechanisms = [l.strip() for l in proc.stdout.splitlines() if l.strip().startswith("mechanism:")]
             results[pid] = (proc.returncode, round(time.time() - t0), mechanisms[:6])
             print(f"{seed.name}: check {pid} tier={tier} -> rc={proc.returncode} in {results[pid][1]}s")
@@ -87,11 +97,14 @@ def check(seed: pathlib.Path, tier: str, checks, vseed: int, budget) -> int:
             if proc.returncode not in (0, 1):
                 print(proc.stdout[-1500:], proc.stderr[-1500:])
     finally:
-        sh(["git", "-C", REPO, "checkout", "--", "."])
+        if inplace:
+            sh(["git", "-C", REPO, "checkout", "--", "."])
+        else:
+            sh(["git", "-C", REPO, "worktree", "remove", "--force", target])
     out = seed / "detection.json"
     previous = json.loads(out.read_text()) if out.exists() else {}
     for pid, (rc, wall, mechanisms) in results.items():
-        previous[f"{pid}/{tier}/seed{vseed}"] = {"rc": rc, "wall_s": wall, "mechanisms": mechanisms}
+        previous[f"{pid}/{tier}/seed{vseed}"] = {"rc": rc, "wall_s": wall, "mechanisms": mechanisms, "how": "git apply in /repo" if inplace else "scratch worktree + VERIF_REPO"}
     out.write_text(json.dumps(previous, indent=1) + "\n")
     return 0 if all(rc == 1 for rc, _, _ in results.values()) else 1
 
@@ -104,11 +117,12 @@ def main() -> int:
     parser.add_argument("--checks", default="")
     parser.add_argument("--seed", type=int, default=0)
     parser.add_argument("--budget", type=float, default=None)
+    parser.add_argument("--inplace", action="store_true", help="apply to /repo itself (undone afterwards)")
     args = parser.parse_args()
     seed = pathlib.Path(args.seed_dir).resolve()
     if args.action == "confirm":
         return confirm(seed)
-    return check(seed, args.tier, [c for c in args.checks.split(",") if c], args.seed, args.budget)
+    return check(seed, args.tier, [c for c in args.checks.split(",") if c], args.seed, args.budget, args.inplace)
 
 
 if __name__ == "__main__":
